@@ -107,7 +107,60 @@ type svuNamedS4 struct {
 	F2 int
 }
 
+// wide structs (more than 12 fields: sort.Slice leaves insertion sort and is no longer stable, so
+// the order of the untagged fields rests on the comparator alone)
+type svuNamedW16 struct {
+	F0  uint16
+	F1  uint8
+	F2  bool
+	F3  uint8
+	F4  uint32
+	F5  uint16
+	F6  uint8
+	F7  bool
+	F8  uint16
+	F9  uint8
+	F10 uint32
+	F11 uint8
+	F12 uint16
+	F13 uint8 `scale:"1"`
+	F14 bool
+	F15 uint16 `scale:"0"`
+}
+type svuNamedW20 struct {
+	F0  uint8
+	F1  uint16
+	F2  uint8
+	F3  bool
+	F4  uint32
+	F5  uint8 `scale:"0"`
+	F6  uint16
+	F7  uint8
+	F8  uint8
+	F9  uint16
+	F10 bool
+	F11 uint8
+	F12 uint32
+	F13 uint8
+	F14 uint16
+	F15 uint8
+	F16 uint8
+	F17 uint16 `scale:"2"`
+	F18 uint8
+	F19 bool `scale:"1"`
+}
+
+const (
+	svuWide16  = "st(_:u8,_:u16,_:bool,_:u8,_:u32,_:u16,_:u8,_:bool,_:u16,_:u8,_:u32,_:u8,_:u16,1:u8,_:bool,0:u16)"
+	svuWide20  = "st(_:u16,_:u8,_:u8,_:bool,_:u32,0:u8,_:u16,_:u8,_:u16,_:u8,_:bool,_:u8,_:u32,_:u8,_:u16,_:u8,_:u8,2:u16,_:u8,1:bool)"
+	svuWide13  = "st(_:u8,_:u8,_:u8,_:u8,_:u8,_:u8,3:u8,_:u8,_:u8,_:u8,_:u8,_:u8,_:u8)"
+	svuNamed16 = "st(_:u16,_:u8,_:bool,_:u8,_:u32,_:u16,_:u8,_:bool,_:u16,_:u8,_:u32,_:u8,_:u16,1:u8,_:bool,0:u16)"
+	svuNamed20 = "st(_:u8,_:u16,_:u8,_:bool,_:u32,0:u8,_:u16,_:u8,_:u8,_:u16,_:bool,_:u8,_:u32,_:u8,_:u16,_:u8,_:u8,2:u16,_:u8,1:bool)"
+)
+
 var svuNamedStructs = map[string]reflect.Type{
+	svuNamed16: reflect.TypeOf(svuNamedW16{}),
+	svuNamed20: reflect.TypeOf(svuNamedW20{}),
 	"st(2:u8,1:u16,0:u32)":          reflect.TypeOf(svuNamedS1{}),
 	"st(1:u8,_:u16,0:u32,_:bool)":   reflect.TypeOf(svuNamedS2{}),
 	"st(_:bytes,_:opt(str),_:uint)": reflect.TypeOf(svuNamedS3{}),
@@ -691,6 +744,7 @@ var svuTable = []string{
 	"st(_:bytes,_:opt(str),_:uint)", "st(5:big,3:u128,_:int)", "st(_:st(_:u8,_:st(1:bool,0:u16)),_:sl(u32))",
 	"st(_:res(u8,bool),_:u16)", "st(0:" + svuEnumA + ",_:map(u8,u8))", "st(_:arr(3,uint),_:sl(i64))",
 	"st(10:u8,9:u8,8:u8,7:u8,6:u8,5:u8,4:u8,3:u8,2:u8,1:u8,0:u8)",
+	svuWide13, svuWide16, svuWide20, svuNamed16, svuNamed20, "sl(" + svuWide16 + ")",
 }
 
 var svuPrimNames = []string{"u8", "u16", "u32", "u64", "i8", "i16", "i32", "i64", "uint", "int", "big", "u128", "bool", "bytes", "str"}
@@ -731,6 +785,22 @@ func svuGenTy(r *vu.RNG, depth int, resOK bool) string {
 	case 6:
 		return "map(" + svuKeyNames[r.Intn(len(svuKeyNames))] + "," + svuGenTy(r, depth-1, false) + ")"
 	default:
+		if r.Chance(1, 6) { // a wide struct of primitives: 13..24 fields, one to three of them tagged
+			n := 13 + r.Intn(12)
+			small := []string{"u8", "u16", "u32", "bool", "i8", "i16"}
+			fs := make([]string, n)
+			for i := range fs {
+				fs[i] = "_:" + small[r.Intn(len(small))]
+			}
+			for k, used := 0, map[int]bool{}; k < 1+r.Intn(3); k++ {
+				i := r.Intn(n)
+				if !used[i] {
+					used[i] = true
+					fs[i] = strconv.Itoa(k) + fs[i][1:]
+				}
+			}
+			return "st(" + strings.Join(fs, ",") + ")"
+		}
 		n := r.Intn(5)
 		tagged := r.Chance(1, 2)
 		perm := make([]int, n)
